@@ -593,12 +593,14 @@ func TestC14(t *testing.T) {
 // a fork on durable storage followed by growth of the *other* logs (a refused update must
 // not wedge the service), and single steps across the top power of two.
 func TestC14Fixed(t *testing.T) {
-	st := vlib.StatsFor("C14", "fixed", "fixed schedules: fork on SQLite then growth of the other logs and a restart; fork, return to the witnessed history at the fork's size, further growth; growth inside level-0 tile 1000 (255900 -> 256100); growth 255->257 and 65535->65537 in one step on both log types; "+ruleC14)
+	st := vlib.StatsFor("C14", "fixed", "fixed schedules: fork on SQLite then growth of the other logs and a restart; fork, return to the witnessed history at the fork's size, further growth; growth inside level-0 tile 1000 (255900 -> 256100); a configuration of 41 polled logs; growth 255->257 and 65535->65537 in one step on both log types; "+ruleC14)
 	for _, c := range []*OmniCase{
 		{Storage: "sqlfile", NTiles: 1, Steps: []OmniStep{{Kind: "grow", Log: 0, Size: 300}, {Kind: "grow", Log: 1, Size: 5}, {Kind: "fork", Log: 0, Size: 400}, {Kind: "grow", Log: 1, Size: 9}, {Kind: "restart"}, {Kind: "grow", Log: 1, Size: 300}}},
 		{Storage: "sqlfile", NTiles: 1, Steps: []OmniStep{{Kind: "grow", Log: 1, Size: 40}, {Kind: "grow", Log: 0, Size: 7}, {Kind: "fork", Log: 1, Size: 40}, {Kind: "grow", Log: 0, Size: 12}}},
 		{Storage: "mem", NTiles: 1, Steps: []OmniStep{{Kind: "grow", Log: 1, Size: 300}, {Kind: "grow", Log: 0, Size: 300}, {Kind: "fork", Log: 1, Size: 400}, {Kind: "fork", Log: 0, Size: 400}, {Kind: "heal", Log: 1}, {Kind: "heal", Log: 0}, {Kind: "grow", Log: 1, Size: 450}, {Kind: "grow", Log: 0, Size: 450}}},
 		{Storage: "mem", NTiles: 1, Steps: []OmniStep{{Kind: "grow", Log: 0, Size: 10}, {Kind: "grow", Log: 1, Size: 10}, {Kind: "grow-outage", Log: 0, Size: 20}, {Kind: "grow-outage", Log: 1, Size: 20}, {Kind: "grow", Log: 0, Size: 21}}},
+		// a configuration far larger than the shipped one (41 polled logs): nothing may depend on the number of logs
+		{Storage: "mem", NTiles: 40, Steps: []OmniStep{{Kind: "grow", Log: 0, Size: 3}, {Kind: "grow", Log: 1, Size: 4}, {Kind: "grow", Log: 17, Size: 5}, {Kind: "grow", Log: 33, Size: 6}, {Kind: "grow", Log: 40, Size: 7}, {Kind: "grow", Log: 40, Size: 300}, {Kind: "grow", Log: 1, Size: 9}}},
 		{Storage: "mem", NTiles: 2, NoneAt: 2, Steps: []OmniStep{{Kind: "grow", Log: 0, Size: 3}, {Kind: "grow", Log: 1, Size: 4}, {Kind: "grow", Log: 2, Size: 5}, {Kind: "grow", Log: 1, Size: 9}, {Kind: "grow", Log: 2, Size: 300}}},
 		{Storage: "mem", NTiles: 1, Steps: []OmniStep{{Kind: "grow", Log: 0, Size: 255900}, {Kind: "grow", Log: 1, Size: 255900}, {Kind: "grow", Log: 0, Size: 256100}, {Kind: "grow", Log: 1, Size: 256100}}},
 		{Storage: "mem", NTiles: 1, Steps: []OmniStep{{Kind: "grow", Log: 0, Size: 255}, {Kind: "grow", Log: 1, Size: 255}, {Kind: "grow", Log: 0, Size: 257}, {Kind: "grow", Log: 1, Size: 257}, {Kind: "grow", Log: 0, Size: 65535}, {Kind: "grow", Log: 1, Size: 65535}, {Kind: "grow", Log: 0, Size: 65537}, {Kind: "grow", Log: 1, Size: 65537}}},
